@@ -165,6 +165,8 @@ def rule_range(ctx):
 
 
 def run(ctx):
+    from ..rules import round5 as _R5c
+    _R5c.rule_dispatch_on_whole_argument(ctx)
     from ..rules import round5 as _R5
     _R5.rule_common_divisions_lcm(ctx)
     rule_F9a(ctx)
